@@ -27,6 +27,7 @@
 //!   R12 invocations of the crate's own single-rule macro_rules macros (src/lib.rs) are expanded textually
 //!   R10h (`//@loop n iter=it hoist`) `for P in E {` -> `let __itN = verif_hoist(E); let ghost __itsN = __itN@; for P in it: __itN {`
 //!   R14 (with R10h) `V.into_iter().rev()` -> `verif_rev_vec(V)`
+//!   R16 (`//@binop OP N FNAME`) the N-th binary expression `L OP R` -> `FNAME(L, R)`
 //!   R15 (`//@loop n halfopen=1`) `for P in A..=B` -> `for P in A..verif_incl_end(B)` (requires B + 1 representable)
 //!   R13 reference patterns in a for-loop pattern: `&x` -> `__ref_x` + `let x = *__ref_x;` at the start of the body
 //!   R11 `Zip::from(X).and(Y).for_each(|a, b| BODY)` -> `for (a, b) in it: verif_zip2(X, Y) BODY` (closure body becomes the loop body)
@@ -145,7 +146,7 @@ fn load_template(path: &Path, mode: &str, items: &mut Vec<TItem>) {
                     cur.as_mut().unwrap_or_else(|| die(4, format!("{}:{}: stray source_sig", pname, ln))).source_sig =
                         Some(tail.to_string());
                 }
-                "sig" | "spec" | "loop" | "at" | "closure" => {
+                "sig" | "spec" | "loop" | "at" | "closure" | "binop" => {
                     let c = cur.as_mut().unwrap_or_else(|| die(4, format!("{}:{}: stray section", pname, ln)));
                     let (pos, kv) = parse_kv(tail);
                     c.sections.push(Section { kind: word.to_string(), args: pos, tags: kv.get("tags").cloned(), kv: kv.clone(), text: String::new() });
@@ -317,6 +318,8 @@ struct BodyScan {
     loop_tail_nosemi: std::collections::BTreeSet<usize>,
     // for loops over `A..=B`: loop ordinal -> (range of the `..=` token, range of B)
     incl_ranges: BTreeMap<usize, (usize, usize, usize, usize)>,
+    // binary expressions by operator token, in pre-order: (lhs range, rhs range)
+    binops: BTreeMap<String, Vec<((usize, usize), (usize, usize))>>,
     // calls by name: (enclosing stmt)
     calls: BTreeMap<String, Vec<StmtInfo>>,
     lets: BTreeMap<String, Vec<StmtInfo>>,
@@ -390,6 +393,11 @@ impl<'a> Scanner<'a> {
                 let c = self.text(ar[0].span()).to_string();
                 let f = if name == "assert" { "verif_assert" } else { "verif_debug_assert" };
                 self.scan.rewrites.push((a, b, format!("{}({})", f, c), "R2".into()));
+                true
+            }
+            "panic" => {
+                // R2: `panic!(..)` -> `verif_panic()` (mode N: `requires false`, i.e. the call must be unreachable)
+                self.scan.rewrites.push((a, b, "verif_panic()".to_string(), "R2".into()));
                 true
             }
             "assert_eq" | "debug_assert_eq" | "assert_ne" | "debug_assert_ne" => {
@@ -542,6 +550,15 @@ impl<'a, 'ast> Visit<'ast> for Scanner<'a> {
         let (bc, _) = self.src.range(e.then_branch.brace_token.span.close());
         self.scan.ifs.push((bo + 1, bc));
         syn::visit::visit_expr_if(self, e);
+    }
+    fn visit_expr_binary(&mut self, b: &'ast syn::ExprBinary) {
+        let op = match &b.op { syn::BinOp::Add(_) => "+", syn::BinOp::Sub(_) => "-", syn::BinOp::Mul(_) => "*", syn::BinOp::Div(_) => "/", _ => "" };
+        if !op.is_empty() {
+            let l = self.src.range(b.left.span());
+            let r = self.src.range(b.right.span());
+            self.scan.binops.entry(op.to_string()).or_default().push((l, r));
+        }
+        syn::visit::visit_expr_binary(self, b);
     }
     fn visit_expr_closure(&mut self, c: &'ast syn::ExprClosure) {
         let (hs, _) = self.src.range(c.span());
@@ -901,6 +918,22 @@ fn main() {
                                 }
                                 seq += 1;
                             }
+                        }
+                        "binop" => {
+                            // R16 (opt-in): `//@binop OP N FNAME`: the N-th binary expression `L OP R` of the body becomes `FNAME(L, R)`
+                            // (operators on references to shim types trip an internal error of the installed Verus)
+                            let op = s.args.get(0).cloned().unwrap_or_default();
+                            let n: usize = s.args.get(1).and_then(|x| x.parse().ok()).unwrap_or_else(|| die(4, format!("bad binop ordinal in {}", id)));
+                            let f = s.args.get(2).cloned().unwrap_or_else(|| die(4, format!("binop needs a function name in {}", id)));
+                            // `lhs=TEXT`: the N-th one among those whose left operand reads TEXT
+                            let cands: Vec<((usize, usize), (usize, usize))> = scan.binops.get(&op).map(|v| v.iter().filter(|(l, _)| match s.kv.get("lhs") { Some(t) => src.text[l.0..l.1].trim() == t, None => true }).cloned().collect()).unwrap_or_default();
+                            let (l, r) = cands.get(n).cloned().unwrap_or_else(|| die(3, format!("lost-anchor: binary expression `{}` #{} not found in {}", op, n, id)));
+                            edits.push((l.0, l.0, seq, format!("{}(", f), json!({"kind": "rewrite", "rule": "R16", "fn": id, "tags": body_tags})));
+                            seq += 1;
+                            edits.push((l.1, r.0, seq, ", ".to_string(), json!({"kind": "rewrite", "rule": "R16", "fn": id, "tags": body_tags})));
+                            seq += 1;
+                            edits.push((r.1, r.1, seq, ")".to_string(), json!({"kind": "rewrite", "rule": "R16", "fn": id, "tags": body_tags})));
+                            seq += 1;
                         }
                         "closure" => {
                             // R9: the closure header (parameters) is replaced by an annotated header
